@@ -127,7 +127,7 @@ func remoteRegistry(ctx context.Context, r *lib.Run) {
 			sub := subjects[si]
 			switch kind := rng.Intn(9); {
 			case kind <= 4:
-				mt := []string{lib.MediaJWS, lib.MediaCOSE}[rng.Intn(2)]
+				mt := []string{lib.MediaJWS, lib.MediaCOSE, lib.MediaJWS, lib.MediaCOSE, lib.MediaJWS, "application/vnd.example.signatureEnvelope.v1+json"}[rng.Intn(6)] // (an envelope media type is pushed and handed back as spelled)
 				size := 1 + rng.Intn(5000)
 				if rng.Intn(8) == 0 {
 					size = 200000 + rng.Intn(900000)
@@ -318,7 +318,7 @@ func main() {
 			kind := rng.Intn(12)
 			switch {
 			case kind <= 4: // a real signature push through the client
-				mt := []string{lib.MediaJWS, lib.MediaCOSE}[rng.Intn(2)]
+				mt := []string{lib.MediaJWS, lib.MediaCOSE, lib.MediaJWS, lib.MediaCOSE, lib.MediaJWS, "application/vnd.example.signatureEnvelope.v1+json"}[rng.Intn(6)] // (an envelope media type is pushed and handed back as spelled)
 				size := 1 + rng.Intn(5000)
 				if rng.Intn(10) == 0 {
 					size = 100000 + rng.Intn(900000)
@@ -441,6 +441,11 @@ func main() {
 					d2 := pushJSON(ctx, store, legacyArtifactManifest, am2)
 					addModel(other, pushed{Kind: "weird", Man: d2})
 					idx := ocispec.Index{MediaType: ocispec.MediaTypeImageIndex, Manifests: []ocispec.Descriptor{sub}, Annotations: map[string]string{"index": fmt.Sprint(iter, op)}}
+					if iter%20 == 0 {
+						// a multi-arch index of well over 4 MiB above the subject: it is no referrer, the manifest cap for referrers does not concern it
+						idx.Annotations["pad"] = strings.Repeat("i", 4*1024*1024+4096)
+						r.Event("large-index-above-the-subject")
+					}
 					idx.SchemaVersion = 2
 					pushJSON(ctx, store, ocispec.MediaTypeImageIndex, idx)
 					trace = append(trace, fmt.Sprintf("legacy notation manifest with subject#%d as BLOB (subject: the next artifact) and an image index listing subject#%d", si, si))
@@ -480,11 +485,20 @@ func main() {
 				real, _ := oras.PushBytes(ctx, store, lib.MediaJWS, small)
 				lie := real
 				lie.Size = 32*1024*1024 + 1 + int64(rng.Intn(1000))
+				under := rng.Intn(3) == 0
+				if under {
+					lie.Size = int64(len(small) / 2) // ... or FEWER bytes than the blob has: what comes back would not be what the descriptor describes
+				}
 				m := ocispec.Manifest{MediaType: ocispec.MediaTypeImageManifest, Config: notationCfg, Layers: []ocispec.Descriptor{lie}, Subject: &sub}
 				m.SchemaVersion = 2
 				d := pushJSON(ctx, store, ocispec.MediaTypeImageManifest, m)
-				trace = append(trace, fmt.Sprintf("hostile signature manifest whose layer declares %d bytes for subject#%d", lie.Size, si))
-				addModel(sub, pushed{Kind: "hostile-declared-blob-size", Man: d, Refuse: true, BlobDigest: []digest.Digest{real.Digest}})
+				trace = append(trace, fmt.Sprintf("hostile signature manifest whose layer declares %d bytes (the blob has %d) for subject#%d", lie.Size, len(small), si))
+				if under {
+					addModel(sub, pushed{Kind: "hostile-under-declared-blob-size", Man: d, Refuse: true})
+					r.Event("under-declared-blob-sizes")
+				} else {
+					addModel(sub, pushed{Kind: "hostile-declared-blob-size", Man: d, Refuse: true, BlobDigest: []digest.Digest{real.Digest}})
+				}
 			case kind == 11 && rng.Bool():
 				// a hand-built signature manifest (exactly one layer) that also carries a member this format does not define
 				// ("blobs", as the legacy format calls it): unknown members are ignored, the one layer is the envelope
